@@ -10,6 +10,7 @@ Reply *timing* is the environment; asyncio.sleep(d) returns within d + J (ASSUME
 import asyncio
 
 from verif_api import *
+from contracts import c10_leaks as _c10      # first: this sidecar's own contracts of the same names are registered after it
 from geckolib.async_locator import GeckoAsyncLocator
 from geckolib.async_tasks import AsyncTasks
 from geckolib.config import GeckoConfig
@@ -395,3 +396,11 @@ def blocking_discovery_terminates_on_time_and_cleans_up(has_addr: bool, has_filt
 from contracts import c07_dispatch
 harness(prop="C15", target="geckolib.driver.async_udp_protocol:GeckoAsyncUdpProtocol.datagram_received",
         name="no_reply_is_dropped_on_arrival")(c07_dispatch.every_arriving_datagram_is_queued_at_the_tail)
+
+
+
+# "helper tasks are gone": the cancellation primitive discover() relies on, with finished-but-untidied tasks of earlier runs
+# in a long-lived manager's registry (contract lives in c10_leaks, shared)
+harness(prop="C15", target="geckolib.async_tasks:AsyncTasks.cancel_key_tasks", name="every_helper_task_is_cancelled_whatever_else_is_registered",
+        bounded="task registries of 0..4 entries (concrete Python list); key and finished-flag of each entry symbolic")(
+    _c10.keyed_cancellation_reaches_every_live_task_of_the_domain)
